@@ -100,7 +100,7 @@ type Lemma struct {
 }
 
 var clauseKW = map[string]bool{"func": true, "pure": true, "requires": true, "ensures": true, "assigns": true,
-	"panics-if": true, "loop": true, "callsite": true, "assumed": true, "mode": true, "lemma": true, "noauto": true, "wraps": true, "nullable": true, "uf": true, "axiom": true}
+	"panics-if": true, "loop": true, "callsite": true, "assumed": true, "mode": true, "lemma": true, "noauto": true, "wraps": true, "nullable": true, "instantiate": true, "uf": true, "axiom": true}
 
 var labelRe = regexp.MustCompile(`^(requires|ensures|panics-if|callsite|pure)\[([A-Za-z0-9_.:-]+)\]`)
 
@@ -239,6 +239,8 @@ func (e *Engine) loadContractFile(path string, pkg *ssa.Package) error {
 				nm = strings.TrimSpace(strings.TrimSuffix(nm, " int"))
 			}
 			e.lemmas = append(e.lemmas, &Lemma{Name: nm, Body: cl, Pkg: pkg, Mode: mode})
+		case "instantiate":
+			// handled before loading (engine.instantiationOverlay)
 		case "uf":
 			if err := e.declareUF(rc.text); err != nil {
 				return fmt.Errorf("%s:%d: %v", path, rc.line, err)
